@@ -572,6 +572,7 @@ DnsMessage::decodeNameWithLoopDetection(const std::uint8_t *data, std::size_t of
   bool jumped = false;
   bool terminated = false;
   std::size_t totalLength = 0;
+  std::size_t jumps = 0;
 
   while (offset < size)
   {
@@ -601,6 +602,11 @@ DnsMessage::decodeNameWithLoopDetection(const std::uint8_t *data, std::size_t of
       {
         throw DnsParseException("Compression pointer loop detected at offset: " +
                                 std::to_string(pointer));
+      }
+      if (++jumps > constants::DNS_MAX_COMPRESSION_JUMPS)
+      {
+        throw DnsParseException("Too many compression pointers in one name (max " +
+                                std::to_string(constants::DNS_MAX_COMPRESSION_JUMPS) + ")");
       }
       visitedPointers.insert(pointer);
 
